@@ -264,7 +264,9 @@ impl<R: DebugBufRead> SymEncryptedProtectedDataReader<R> {
                     (buf.is_empty(), true)
                 }
                 Source::Done(_) => (false, true),
-                Source::Error => panic!("SymEncryptedProtectedDataReader errored"),
+                Source::Error => {
+                    return Err(io::Error::other("SymEncryptedProtectedDataReader errored"))
+                }
             };
 
             if needs_replacing {
@@ -309,7 +311,8 @@ impl<R: DebugBufRead> BufRead for SymEncryptedProtectedDataReader<R> {
                     panic!("consume after done: {amt}")
                 }
             }
-            Source::Error => panic!("SymEncryptedProtectedDataReader errored"),
+            // `consume` after an error must not panic (the reader keeps returning `Err`)
+            Source::Error => {}
         }
     }
 }
